@@ -258,6 +258,8 @@ def extension (p : Path) : Option Str :=
 def join (p : Path) (n : Str) : Path := if p.isEmpty then n else p ++ '/' :: n
 /-- `Option::and_then` -/
 def and_then (o : Option α) (f : α → Option β) : Option β := o.bind f
+/-- `str::starts_with(&str)`: plain prefix of the text (NOT component-wise, unlike `Path::starts_with`) -/
+def str_starts_with (s t : Str) : Bool := t.isPrefixOf s
 /-- `Option::is_some_and` -/
 def is_some_and (o : Option α) (p : α → Bool) : Bool := match o with | some v => p v | none => false
 /-- `Path::starts_with` on path TEXTS without trailing separators: component-wise — `a/bc` does not start with `a/b` -/
